@@ -182,6 +182,9 @@ LOOPS = ("WhileStmt", "DoStmt", "ForStmt")
 C_SUFFIXES = (".c", ".cc", ".cpp")
 
 
+LITERAL_FNS = ("legal_path",)
+
+
 class SitesError(Exception):
     def __init__(self, site, msg):
         Exception.__init__(self, "%s: %s" % (site, msg))
@@ -925,7 +928,7 @@ def _analyze_file(job):
         fa = os.path.realpath(f)
         if fa == main_abs or (f.endswith(C_SUFFIXES) and relname(f) is not None):
             fns.append((n, f, relname(f)))
-    out = dict(rel=rel, included=sorted(included), sites=[], calls=[], addr=[], defs=[])
+    out = dict(rel=rel, included=sorted(included), sites=[], calls=[], addr=[], defs=[], cvp=[], lits=[])
     fobjs = []
     for (n, f, frel) in fns:
         try:
@@ -948,6 +951,10 @@ def _analyze_file(job):
             if name is None:
                 continue
             line = fn.line(c)
+            if name == "check_valid_path" and len(args) >= 4:
+                # the operation name and the write flag each caller presents to the master
+                out["cvp"].append(dict(file=frel, fn=fn.name, line=line, op=cut(fn.text(args[2]), 40),
+                                       flag=cut(fn.text(args[3]), 40)))
             if name in FS_CALLEES:
                 idxs = FS_CALLEES[name]
                 if not idxs:
@@ -967,6 +974,16 @@ def _analyze_file(job):
                     origins = [_safe_classify(fn, a) for a in args]
                     out["calls"].append(dict(file=frel, tu=rel, caller=fn.name, callee=name, line=line,
                                              origins=origins))
+        if fn.name in LITERAL_FNS:
+            # every character / string literal of the function, in source order (fingerprint of its comparisons)
+            lits = []
+            for x in fn.nodes:
+                if x["kind"] == "CharacterLiteral":
+                    lits.append((fn.bpos(x), "c%d" % int(x.get("value", 0))))
+                elif x["kind"] == "StringLiteral" and len(str(x.get("value", ""))) <= 6:
+                    # short strings only (the search pattern "/."); trace / error message texts are not logic
+                    lits.append((fn.bpos(x), "s" + str(x.get("value", ""))))
+            out["lits"].append(dict(fn=fn.name, file=frel, lits=[v for (_, v) in sorted(lits)]))
         for x in fn.nodes:
             if x["kind"] == "DeclRefExpr" and x.get("id") not in callee_nodes:
                 r = x.get("referencedDecl") or {}
@@ -1090,7 +1107,10 @@ def analyze(repo, bdir, include_flags, overrides=None, jobs=None):
             results.append(res)
     scanned = set(files)
     sites, calls, addr, defs = [], [], [], []
+    cvp_calls, lit_rows = [], []
     for r in results:
+        cvp_calls += r.get("cvp", [])
+        lit_rows += r.get("lits", [])
         scanned.update(r["included"])
         sites += r["sites"]
         calls += r["calls"]
@@ -1185,7 +1205,9 @@ def analyze(repo, bdir, include_flags, overrides=None, jobs=None):
     if not any(d["name"] == "check_valid_path" for d in defs):
         raise SitesError("check_valid_path", "function check_valid_path not found in the scanned files")
     return dict(scanned=sorted(scanned), notScanned=not_scanned, fsCallees=sorted(FS_CALLEES),
-                sites=sites, calls=rows, fsEfuns=fs_efuns, loaderEfuns=loader_efuns, mediationApplies=med_applies)
+                sites=sites, calls=rows, fsEfuns=fs_efuns, loaderEfuns=loader_efuns, mediationApplies=med_applies,
+                cvpCalls=sorted(set((c["file"], c["fn"], c["op"], c["flag"]) for c in cvp_calls)),
+                literals=sorted(set((l["fn"], tuple(l["lits"])) for l in lit_rows)))
 
 
 def dedup(rows, keys):
@@ -1286,6 +1308,12 @@ def render(res):
                      "lib/lpc/object.c is reachable in the call graph of the scanned files"))
     out.append(llist("mediationApplies", "String", [lstr(x) for x in res.get("mediationApplies", [])],
                      "the apply functions check_valid_path () calls to consult the master"))
+    out.append(llist("cvpCalls", "(String × String × String × String)",
+                     ["(%s, %s, %s, %s)" % tuple(lstr(x) for x in c) for c in res.get("cvpCalls", [])],
+                     "every call of check_valid_path: (file, calling function, operation-name argument, write-flag argument)"))
+    out.append(llist("literals", "(String × List String)",
+                     ["(%s, [%s])" % (lstr(f), ", ".join(lstr(x) for x in ls)) for (f, ls) in res.get("literals", [])],
+                     "character (c<code>) and string (s<text>) literals of legal_path / strip_name in source order"))
     out.append(llist("loaderEfuns", "String", [lstr(x) for x in res.get("loaderEfuns", [])],
                      "efun implementations that reach the file system only through load_object / #include / "
                      "saved binaries"))
